@@ -76,8 +76,9 @@ def propose(rng, desc, counter):
     if kind == 'unpivot' and len(ints) >= 2:
         pick = [n for n in ints if n != 'id'][:2]
         if len(pick) == 2:
-            return 'unpivot', lambda: DF.unpivot([{'name': pick[0], 'keys': {'which': 'first'}}, {'name': pick[1], 'keys': {'which': 'second'}}],
-                                                 [{'name': 'which', 'type': 'string'}], {'name': fresh, 'type': 'integer'},
+            kname = 'which' if 'which' not in names else fresh + 'k'     # the extra key must be a new field name
+            return 'unpivot', lambda: DF.unpivot([{'name': pick[0], 'keys': {kname: 'first'}}, {'name': pick[1], 'keys': {kname: 'second'}}],
+                                                 [{'name': kname, 'type': 'string'}], {'name': fresh, 'type': 'integer'},
                                                  regex=False, resources=rname)
     if kind == 'concat' and nres >= 2:
         a, b = desc['resources'][0], desc['resources'][1]
